@@ -1,6 +1,7 @@
 """C12 -- imager geometry stays self-consistent under any configuration history."""
 from fractions import Fraction
 from .. import tlc
+from ..common import mktempdir as _mktempdir
 from ..common import Emb, EXACT_EMBS, DEC_EMBS, unfl, run_driver_parallel
 
 RULE = ("M: ImagerGeometry.tla -- constructor/setters/fit arithmetic as coded (exact integers, half ticks) against the contract for all "
@@ -139,7 +140,7 @@ def run(ctx):
 def extra_params_table(ctx):
     """growth beyond the listed properties: the constructor's parameter validation as a decision table generated by TLC"""
     import json, os, tempfile
-    dump = os.path.join(tempfile.mkdtemp(prefix="ipar_"), "dump.json")
+    dump = os.path.join(_mktempdir(prefix="ipar_"), "dump.json")
     r = tlc.run_tlc("ImagerParams", workers=1, env={"DUMP_FILE": dump}, init="Init", nxt="Next", invariants=["AllValidAccepted"], heap="2g")
     ctx.model("ImagerParams decision table (beyond the listed properties)", r)
     if not os.path.exists(dump):
